@@ -68,7 +68,7 @@ func EnumCase(path, in string, data interface{}, enum interface{}, caseSensitive
 			expectedValue := reflect.ValueOf(data)
 			if expectedValue.IsValid() && expectedValue.Type().ConvertibleTo(actualType) {
 				// Attempt comparison after type conversion
-				if reflect.DeepEqual(expectedValue.Convert(actualType).Interface(), enumValue) {
+				if equalAfterNumericConversion(expectedValue, actualType, enumValue) {
 					return nil
 				}
 			}
@@ -76,6 +76,54 @@ func EnumCase(path, in string, data interface{}, enum interface{}, caseSensitive
 		values = append(values, enumValue)
 	}
 	return errors.EnumFail(path, in, data, values)
+}
+
+func numericSign(v reflect.Value) int {
+	switch {
+	case v.Kind() >= reflect.Int && v.Kind() <= reflect.Int64:
+		switch i := v.Int(); {
+		case i < 0:
+			return -1
+		case i > 0:
+			return 1
+		}
+	case v.Kind() >= reflect.Uint && v.Kind() <= reflect.Uint64:
+		if v.Uint() > 0 {
+			return 1
+		}
+	case v.Kind() == reflect.Float32 || v.Kind() == reflect.Float64:
+		switch f := v.Float(); {
+		case f < 0:
+			return -1
+		case f > 0:
+			return 1
+		}
+	}
+	return 0
+}
+
+func isNumericKind(k reflect.Kind) bool {
+	return (k >= reflect.Int && k <= reflect.Uint64) || k == reflect.Float32 || k == reflect.Float64
+}
+
+// equalAfterNumericConversion tells if value, converted to targetType, equals target. A number is only
+// converted to another numeric type, and only when the conversion keeps the number (no truncation,
+// wrap-around or rune conversion).
+func equalAfterNumericConversion(value reflect.Value, targetType reflect.Type, target interface{}) bool {
+	converted := value.Convert(targetType)
+	if isNumericKind(value.Kind()) || isNumericKind(targetType.Kind()) {
+		if !isNumericKind(value.Kind()) || !isNumericKind(targetType.Kind()) {
+			return false
+		}
+		if !reflect.DeepEqual(converted.Convert(value.Type()).Interface(), value.Interface()) {
+			return false
+		}
+		// a signed/unsigned conversion of the same width round-trips although it changes the number: compare signs
+		if numericSign(converted) != numericSign(value) {
+			return false
+		}
+	}
+	return reflect.DeepEqual(converted.Interface(), target)
 }
 
 // convertEnumCaseStringKind converts interface if it is kind of string and case insensitivity is set
